@@ -635,6 +635,143 @@ scenarios:
 	res.Eval(vkit.JSON(c), c.Behaviour != "good")
 }
 
+// ---------------------------------------------------------------- responses arriving all at once
+
+// burstTarget holds every request until `want` of them are waiting (or 300 ms have passed since
+// the first), then answers them all at the same moment: every instance of the pool is handed its
+// response — and runs its postprocessors — simultaneously, round after round.
+type burstTarget struct {
+	mu      sync.Mutex
+	want    int
+	waiting int
+	gate    chan struct{}
+	served  atomic.Int64
+}
+
+func (b *burstTarget) ServeHTTP(w http.ResponseWriter, r *http.Request) {
+	b.mu.Lock()
+	if b.gate == nil {
+		b.gate = make(chan struct{})
+		g := b.gate
+		time.AfterFunc(300*time.Millisecond, func() {
+			b.mu.Lock()
+			if b.gate == g {
+				close(g)
+				b.gate, b.waiting = nil, 0
+			}
+			b.mu.Unlock()
+		})
+	}
+	g := b.gate
+	b.waiting++
+	if b.waiting >= b.want {
+		close(g)
+		b.gate, b.waiting = nil, 0
+	}
+	b.mu.Unlock()
+	<-g
+	b.served.Add(1)
+	w.Header().Set("X-Tok", "abcdefgh")
+	if strings.HasSuffix(r.URL.Path, "/json") {
+		w.Header().Set("Content-Type", "application/json")
+		_, _ = io.WriteString(w, `{"tok":"t1","n":5,"a":{"b":[1,2]},"ok":true}`)
+		return
+	}
+	w.Header().Set("Content-Type", "text/html")
+	var sb strings.Builder
+	sb.WriteString("<html><head><title>ok</title></head><body>")
+	for i := 0; i < 16; i++ {
+		fmt.Fprintf(&sb, `<div class="d%d"><a href="/l%d">ok %d</a></div>`, i, i, i)
+	}
+	sb.WriteString("</body></html>")
+	_, _ = io.WriteString(w, sb.String())
+}
+
+// burstCase: nothing in the responses is wrong; what is hostile is their timing. Many instances,
+// every postprocessor kind with many mappings, and all the responses of a round arriving at one
+// moment. The run must end without an error with one ok sample per step (and the process must
+// survive, which the parent sees).
+func burstCase(res *vkit.Result, c Case) {
+	bt := &burstTarget{want: c.Instances}
+	ln, err := net.Listen("tcp", "127.0.0.1:0")
+	if err != nil {
+		res.Inconclusive(true, "listen: %v", err)
+		return
+	}
+	srv := &http.Server{Handler: bt, ErrorLog: log.New(io.Discard, "", 0)}
+	go func() { _ = srv.Serve(ln) }()
+	defer srv.Close()
+	var xm, hm, jm []string
+	for i := 0; i < 16; i++ {
+		xm = append(xm, fmt.Sprintf(`"x%d": "//div[@class='d%d']/a/@href"`, i, i))
+		hm = append(hm, fmt.Sprintf(`"h%d": "X-Tok|substr(%d)|upper"`, i, i%6))
+		jm = append(jm, fmt.Sprintf(`"j%d": "$.a.b[%d]"`, i, i%2))
+	}
+	yaml := `requests:
+  - name: "html"
+    method: "GET"
+    uri: "/burst/html"
+    headers: {}
+    postprocessors:
+      - type: "var/xpath"
+        mapping: {` + strings.Join(xm, ", ") + `}
+      - type: "var/header"
+        mapping: {` + strings.Join(hm, ", ") + `}
+      - type: "assert/response"
+        body: ["ok"]
+        status_code: 200
+  - name: "json"
+    method: "GET"
+    uri: "/burst/json"
+    headers: {"X-From": "{{.request.html.postprocessor.x3}}-{{.request.html.postprocessor.h2}}"}
+    postprocessors:
+      - type: "var/jsonpath"
+        mapping: {` + strings.Join(jm, ", ") + `, "tok": "$.tok"}
+      - type: "var/header"
+        mapping: {` + strings.Join(hm, ", ") + `}
+scenarios:
+  - name: "scn"
+    weight: 1
+    min_waiting_time: 0
+    requests: ["html", "json"]
+`
+	base := vkit.WriteMem(nil)
+	vkit.RemoveMem(base)
+	sp := base + ".yaml"
+	_ = vkit.WriteMemAt(sp, []byte(yaml))
+	defer vkit.RemoveMem(sp)
+	shots := c.Instances * c.Rounds
+	gun := map[string]any{"type": "http/scenario", "target": ln.Addr().String()}
+	pool := poolConf(map[string]any{"type": "http/scenario", "file": sp, "limit": shots}, gun, c.Instances)
+	pool["rps"] = map[string]any{"type": "once", "times": shots}
+	samples, rr, err := runPool(pool, 240*time.Second)
+	if err != nil {
+		res.Inconclusive(true, "burst pool rejected: %v", err)
+		return
+	}
+	if rr.Hang || rr.WaitHang {
+		res.Violate(key(c, "hang"), "the run did not end within 240 s:\n"+rr.Stacks, c)
+		return
+	}
+	if rr.Err != nil {
+		res.Violate(key(c, "run-aborted"), fmt.Sprintf("Engine.Run returned %v", rr.Err), c)
+		return
+	}
+	ok := 0
+	for _, s := range samples {
+		if s.Net == 0 && s.Proto == 200 {
+			ok++
+		}
+	}
+	if len(samples) != 2*shots || ok != 2*shots {
+		res.Violate(key(c, "good-shot-affected"), fmt.Sprintf("%d shots of two steps against a target that answers everything well: %d samples, %d of them ok", shots, len(samples), ok), c)
+	}
+	res.Count("scenario_samples", int64(len(samples)))
+	res.Count("burst_rounds", int64(c.Rounds))
+	res.Count("burst_responses", bt.served.Load())
+	res.Eval(vkit.JSON(c), true)
+}
+
 // ---------------------------------------------------------------- lists of any length in responses
 
 // listShapes: what the target may put where the scenario expects a list.
@@ -1224,6 +1361,8 @@ func runCase(res *vkit.Result, p *peer, c Case) {
 		grpcWKTCase(res, c)
 	case c.Gun == "grpc" || c.Gun == "grpc/scenario":
 		grpcCase(res, c)
+	case c.Gun == "http/scenario" && c.Behaviour == "burst":
+		burstCase(res, c)
 	case c.Gun == "http/scenario" && c.Variant == "list-index":
 		listIndexCase(res, p, c)
 	case c.Gun == "http/scenario":
@@ -1294,6 +1433,8 @@ func main() {
 	for _, b := range []string{"h2-statuses", "tls12-client-cert-required", "tls13-client-cert-required", "tls-getconfig-fails", "tls-no-h2"} {
 		cases = append(cases, Case{Gun: "http2", Behaviour: b, Instances: 2, Rounds: 4})
 	}
+	cases = append(cases, Case{Gun: "http/scenario", Variant: "all-kinds", Behaviour: "burst", Instances: 48, Rounds: 20})
+	cases = append(cases, Case{Gun: "http/scenario", Variant: "all-kinds", Behaviour: "burst", Instances: 16, Rounds: 30})
 	for _, g := range []string{"grpc", "grpc/scenario"} {
 		cases = append(cases, Case{Gun: g, Behaviour: "statuses", Instances: 2})
 		cases = append(cases, Case{Gun: g, Behaviour: "chaos", Instances: 3})
